@@ -321,6 +321,12 @@ def run(tier, seed):
     ck.coverage['traces_validated_against_impl'] = n
     ck.coverage['evaluations'] = n
     _conc_part(ck, tier, seed, thorough)
+    # the coordinator inside the running pipeline: status changes, first
+    # failure kept, cancel linearization as actions of Pipeline.tla / Download.tla
+    from checks import pconf_e2e
+    import pipeline
+    pconf_e2e.run(ck, 'C17', tier, seed)
+    pipeline.close_pool()
     return ck.finish()
 
 
@@ -379,6 +385,11 @@ def _conc_part(ck, tier, seed, thorough):
 
 
 def replay(path):
+    import json as _j
+    _b = _j.load(open(path))
+    if (_b.get('replay') or {}).get('kind') == 'pconf':
+        from checks import pconf_e2e
+        return pconf_e2e.replay(_b['replay'])
     with open(path) as f:
         body = json.load(f)
     print(json.dumps(body['report'], indent=1)[:3000])
